@@ -320,10 +320,20 @@ def run(ctx) -> None:
             nstreams = rng.choice([1, 1, 2, 3, 5])
             streams = [f"v{k + 1}" for k in range(nstreams)]
             with_time = rng.random() < 0.9
-            tb = P.Table(n, streams=streams, secs=None if rng.random() < 0.5 else gen_irregular(rng, n),
-                         with_z=rng.random() < 0.8, with_pos=rng.random() < 0.8, with_time=with_time)
+            unit = rng.choice(["ns", "ns", "s", "ms", "us"])
+            secs = None if rng.random() < 0.5 else gen_irregular(rng, n)
+            unsorted = with_time and n >= 3 and rng.random() < 0.2
+            if unsorted:
+                secs = list(secs) if secs is not None else [P.T0 + 60 * i for i in range(n)]
+                rng.shuffle(secs)  # rows are not in time order: a window selects non-contiguous rows
+            tb = P.Table(n, streams=streams, secs=secs, with_z=rng.random() < 0.8, with_pos=rng.random() < 0.8,
+                         with_time=with_time, time_unit=unit)
             nctx = rng.choice([1, 2, 3, 3, 5, 7])
-            lay = P.window_layouts(tb) if with_time else [(None, None)]
+            lay = P.window_layouts(tb, half=rng.random() < 0.4) if with_time else [(None, None)]
+            if unsorted:
+                srt = sorted(tb.secs)
+                lay = [(None, None)] + [(a, b) for a in (None, srt[0], srt[n // 3], srt[n // 2]) for b in (None, srt[n // 2] + 1, srt[-1], srt[-1] + 1)
+                                        if (a, b) != (None, None) and (a is None or b is None or a <= b)]
             if len(lay) > 400:
                 lay = rng.sample(lay, 400)
             wins = rng.sample(lay, min(nctx, len(lay)))
@@ -352,8 +362,27 @@ def run(ctx) -> None:
                     sd[s] = tests
                 contexts.append({"window": w, "streams": sd})
             variants = fe_variants(ctx, tb, nstreams == 1)
-            for fe, opts in rng.sample(variants, ctx.pick(3, 6)):
-                run_one(ctx, tb, contexts, fe, opts, scratch, "w2")
+            if unsorted:
+                # label selection in xarray presupposes a monotonic time coordinate (xarray's own precondition)
+                variants = [v for v in variants if not v[0].startswith("xarray")]
+                ctx.count("c05.unsorted_time_tables")
+            for fe, opts in rng.sample(variants, min(len(variants), ctx.pick(3, 6))):
+                run_one(ctx, tb, contexts, fe, opts, scratch, "w2-unsorted" if unsorted else "w2")
+        # ---- histories across runs: two data sets with the same length and the same first / last instant but different
+        #      interior instants, run one after the other with the same window
+        for _ in range(ctx.pick(25, 200)):
+            n = rng.choice([6, 9, 12])
+            step = rng.choice([60, 3600])
+            sa = [P.T0 + step * i for i in range(n)]
+            sb = [P.T0 + i for i in range(n - 1)] + [sa[-1]]  # burst at the start, same ends
+            w = (sa[n // 3], sa[(2 * n) // 3])
+            for fe in ("numpy-dict", "numpy-array", "netcdf-ds", "qcconfig", "pandas", "xarray-ds"):
+                for secs_ in ((sa, sb) if rng.random() < 0.5 else (sb, sa)):
+                    tbx = P.Table(n, streams=("v1",), secs=secs_)
+                    ctxs = [{"window": w, "streams": {"v1": [("qartod", "vf_probe_test", {"tag": 5}),
+                                                             ("qartod", "gross_range_test", {"fail_span": [1001, 1006], "suspect_span": [1002, 1004]})]}}]
+                    run_one(ctx, tbx, ctxs, fe, {}, scratch, "pair-history")
+                    ctx.count("c05.same_ends_history_runs")
     finally:
         scratch.close()
         P.remove_probes()
